@@ -59,7 +59,14 @@ def parse_call_args(message, fname):
 def _glue_error(message, tb):
     """TypeError / AttributeError / NameError whose innermost frame is harness code (generated harness or /verif/vf),
     e.g. a recorder that lacks a newly added keyword argument: the harness is outdated, the property is not violated"""
-    if not message.split(":")[0].strip() in ("TypeError", "AttributeError", "NameError"):
+    kind = message.split(":")[0].strip()
+    if kind.endswith("ValidationError"):
+        # a validating (pydantic) constructor was handed a stand-in or a symbolic proxy: the harness no longer intercepts
+        # that constructor where the code under test now calls it
+        import re
+        return re.search(r"input_type=(Stub|FakeFrame|MetaFrame|Frame|PySeries|Series|PLStub|_FrameStub|PageData|Rec\w*|\w*Symbolic\w*)\b",
+                         message + (tb or "")) is not None
+    if kind not in ("TypeError", "AttributeError", "NameError"):
         return False
     files = [ln.strip() for ln in (tb or "").splitlines() if ln.strip().startswith("File ")]
     if not files:
